@@ -1,8 +1,6 @@
 //! gvh — the Rust side of the /verif machinery: replays TLC-generated
 //! behaviours into the real library and records traces from it.
-mod probes;
-mod script;
-mod util;
+use gvh::{script, tables};
 
 fn main() {
     let args: Vec<String> = std::env::args().collect();
@@ -10,6 +8,7 @@ fn main() {
     let code = match a.get(1).copied() {
         Some("replay") => match a.get(2).copied() {
             Some("script") => script::replay(a[3], a[4]),
+            Some("tables") => tables::replay(a[3], a[4]),
             other => {
                 eprintln!("unknown replay suite {other:?}");
                 2
